@@ -523,6 +523,14 @@ def _norm1(e, ctx):
                 return r_
         fn, args, kwargs = e[1], e[2], e[3]
         # Cat(Const(0, k), X) shifts X left by k places: X * 2**k
+        if fn == ('name', 'Cat') and not kwargs and len(args) >= 2 and not any(a_[0] in ('star', 'gen') for a_ in args):
+            # an empty slice x[a:a] contributes no bits; Cat of one part is that part
+            def empty(a_):
+                return a_[0] == 'sub' and a_[2][0] == 'slice' and a_[2][1][0] == 'const' and a_[2][2][0] == 'const' and \
+                    isinstance(a_[2][1][1], int) and a_[2][1][1] == a_[2][2][1] and a_[2][1][1] >= 0
+            keep = tuple(a_ for a_ in args if not empty(a_))
+            if len(keep) != len(args) and keep:
+                return keep[0] if len(keep) == 1 else ('call', fn, keep, ())
         if fn == ('name', 'Cat') and len(args) == 2 and not kwargs and args[0][0] == 'call' and args[0][1] in (('name', 'Const'), ('name', 'C')) and \
                 len(args[0][2]) == 2 and args[0][2][0] == ('const', 0) and not args[0][3]:
             return ('nary', '*', (('bin', '**', ('const', 2), args[0][2][1]), args[1]))
@@ -869,6 +877,17 @@ def _norm1(e, ctx):
             tab = ctx.enums.get(ck) if ck and ck != '@methods' else None
             if tab and all(isinstance(v_, str) and m_ == v_.upper() for m_, v_ in tab.items()):
                 return ('call', b, (s_[1][1],), ())
+        # bit i of a vector masked by a strobe replicated to the vector's own length: (X & S.replicate(len(X)))[i] == X[i] & S
+        if e[2][0] != 'slice' and ((b[0] == 'nary' and b[1] == '&' and len(b[2]) == 2) or (b[0] == 'bin' and b[1] == '&')):
+            ops_ = b[2] if b[0] == 'nary' else (b[2], b[3])
+            def plain_(x):
+                while x[0] == 'call' and x[1][0] == 'attr' and x[1][2] in ('as_unsigned', 'as_value') and not x[2] and not x[3]:
+                    x = x[1][1]
+                return x
+            for x_, r_ in ((ops_[0], ops_[1]), (ops_[1], ops_[0])):
+                if r_[0] == 'call' and r_[1][0] == 'attr' and r_[1][2] == 'replicate' and len(r_[2]) == 1 and not r_[3] and \
+                        r_[2][0] == ('call', ('name', 'len'), (plain_(x_),), ()):
+                    return ('nary', '&', (('sub', plain_(x_), e[2]), r_[1][1]))
         if b[0] in ('tuple', 'list') and e[2][0] == 'const' and isinstance(e[2][1], int) and not any(x[0] == 'star' for x in b[1]) \
                 and -len(b[1]) <= e[2][1] < len(b[1]):
             return b[1][e[2][1]]                        # (a, b, c)[1] == b
